@@ -90,7 +90,7 @@ TypeFor(kind, j) == IF kind = "message" THEN FQ(j) ELSE IF kind = "enum" THEN En
 
 AddMsg ==
     /\ Len(msgs) < MaxMsgs
-    /\ msgs' = Append(msgs, [name |-> MsgName(Len(msgs) + 1), fields |-> <<>>, oneofs |-> <<>>])
+    /\ msgs' = Append(msgs, [name |-> MsgName(Len(msgs) + 1), fields |-> <<>>, oneofs |-> <<>>, nested |-> <<>>, enums |-> <<>>])
 
 AddField ==
     \E mi \in 1..Len(msgs) :
@@ -130,13 +130,37 @@ Next == /\ steps < Steps
         /\ steps' = steps + 1
         /\ (AddMsg \/ AddField \/ AddOneofMember)
 
-Init == msgs = << [name |-> MsgName(1), fields |-> <<>>, oneofs |-> <<>>] >> /\ steps = 0
+Init == msgs = << [name |-> MsgName(1), fields |-> <<>>, oneofs |-> <<>>, nested |-> <<>>, enums |-> <<>>] >> /\ steps = 0
 Spec == Init /\ [][Next]_vars
 
 WellFormedInv == WellFormedIn(File, Known)
 
 \* printed once per walk, at its last state
 ExportInv == (steps = Steps) => PrintT("SCHEMA " \o ToJson(File))
+
+(***************************************************************************)
+(* C19: the entities a generated package must expose for a file: every     *)
+(* message (nested ones included) and enum under its full name, with its   *)
+(* fields / values.  Exported as obligations for the live packages.        *)
+(***************************************************************************)
+RECURSIVE MsgEntities(_, _)
+MsgEntities(prefix, ms) ==
+    IF ms = <<>> THEN <<>>
+    ELSE LET m == ms[1]
+             full == prefix \o "." \o m.name
+             fieldsE == [i \in 1..Len(m.fields) |-> [name |-> m.fields[i].name, num |-> m.fields[i].num, kind |-> m.fields[i].kind,
+                                                     card |-> m.fields[i].card, oneof |-> m.fields[i].oneof]]
+             enumsE == [i \in 1..Len(m.enums) |-> [kind |-> "enum", name |-> full \o "." \o m.enums[i].name, values |-> m.enums[i].values]]
+         IN << [kind |-> "message", name |-> full, fields |-> fieldsE, oneofs |-> m.oneofs] >>
+            \o enumsE \o MsgEntities(full, m.nested) \o MsgEntities(prefix, Tail(ms))
+
+Entities(F) ==
+    MsgEntities(F.pkg, F.msgs)
+    \o [i \in 1..Len(F.enums) |-> [kind |-> "enum", name |-> F.pkg \o "." \o F.enums[i].name, values |-> F.enums[i].values]]
+
+EntitiesOK ==
+    LET C == JsonDeserialize(IOEnv.VERIF_CORPUS)
+    IN \A i \in 1..Len(C) : PrintT("ENTITIES " \o ToJson([file |-> C[i].name, pkg |-> C[i].pkg, entities |-> Entities(C[i])]))
 
 (***************************************************************************)
 (* Static corpus check: VERIF_CORPUS = JSON array of files, VERIF_KNOWN =  *)
